@@ -4,6 +4,7 @@ package main
 
 import (
 	"fmt"
+	"go/token"
 	"sort"
 	"strings"
 
@@ -260,5 +261,223 @@ func (c *Ctx) edgeInsertingTypesGuarded(hc *ssa.Function) {
 				fmt.Sprintf("replaying %q inserts dependency edges (%s); the emission is reachable only across the false edge of the cycle search", t, where),
 				fmt.Sprintf("replaying a %q event inserts dependency edges (%s), yet this command records one without having asked the cycle search: edges that were acceptable when they were first recorded can close a cycle with what has been recorded since", t, where))
 		}
+	}
+}
+
+// ------------------------------------------------------------------ WR12
+
+func init() {
+	register(&Rule{ID: "WR12", Min: 1, Run: ruleWR12,
+		Doc: "writers-honour-the-reader's-line-limit: the reader takes in log lines of at most N bytes (the limit its scanner is given) and fails on a longer one - for every command, compact included. So no command may record an event that becomes a longer line: the event constructor (or a marshalling helper every writer of the log goes through) compares the length of the marshalled event with a constant not above that limit, and only the not-too-long edge leads to a non-failing return. Without it a large body is recorded with exit 0 and the store is unreadable from then on"})
+}
+
+func ruleWR12(c *Ctx) {
+	rd := c.anchor("readEvents")
+	if rd == nil {
+		return
+	}
+	// the reader's limit
+	limit := int64(-1)
+	for _, g := range append([]*ssa.Function{rd}, c.scannerConstructorsOf(rd)...) {
+		for _, call := range callsNamed(g, "(*bufio.Scanner).Buffer") {
+			args := call.Common().Args
+			if k, ok := constInt(args[len(args)-1]); ok {
+				limit = k
+			}
+		}
+	}
+	if limit < 0 {
+		c.ok(c.Name(rd), "reader-limit", c.FnPos(rd), "the reader sets no constant line limit (DT3 judges that)")
+		return
+	}
+	// length guards: a comparison of len(json.Marshal(...)) (+ constant) with a constant, whose too-long edge only fails
+	type guard struct {
+		fn   *ssa.Function
+		pass map[edge]bool
+		c    int64
+		pos  string
+	}
+	var guards []guard
+	fromMarshalLen := func(v ssa.Value) bool {
+		for d := 0; d < 4 && v != nil; d++ {
+			v = strip(v)
+			if bo, ok := v.(*ssa.BinOp); ok && (bo.Op == token.ADD || bo.Op == token.SUB) {
+				if _, isC := constInt(bo.Y); isC {
+					v = bo.X
+					continue
+				}
+			}
+			break
+		}
+		cl, _ := callOf(v)
+		if cl == nil || calleeFullName(&cl.Call) != "builtin len" || len(cl.Call.Args) != 1 {
+			return false
+		}
+		a := resolve(cl.Call.Args[0])
+		if ex, ok := a.(*ssa.Extract); ok {
+			if mc, ok := ex.Tuple.(*ssa.Call); ok {
+				n := calleeFullName(&mc.Call)
+				return n == "encoding/json.Marshal" || n == "encoding/json.MarshalIndent"
+			}
+		}
+		return false
+	}
+	for _, f := range c.Fns {
+		if !c.InModule(f) || f.Blocks == nil || f.Pkg != c.Ergo {
+			continue
+		}
+		for _, bf := range branchFacts(f) {
+			if len(bf.A.Env) != 0 || bf.A.Kind != "cmp" || !fromMarshalLen(bf.A.X) {
+				continue
+			}
+			k, ok := constInt(bf.A.Y)
+			if !ok {
+				continue
+			}
+			// the edge on which the line is known NOT to be too long
+			short := (bf.A.Op == token.GTR || bf.A.Op == token.GEQ) && !bf.Holds || (bf.A.Op == token.LEQ || bf.A.Op == token.LSS) && bf.Holds
+			if !short {
+				continue
+			}
+			found := false
+			for i := range guards {
+				if guards[i].fn == f && guards[i].c == k {
+					guards[i].pass[bf.E] = true
+					found = true
+				}
+			}
+			if !found {
+				guards = append(guards, guard{f, map[edge]bool{bf.E: true}, k, c.Pos(bf.If.Pos())})
+			}
+		}
+	}
+	curEnv = nil
+	ne := c.anchor("newEvent")
+	good := ""
+	why := fmt.Sprintf("the reader refuses lines longer than %d bytes, but no writer-side check of the marshalled event's length against that limit was found", limit)
+	for _, g := range guards {
+		if g.c > limit+1 {
+			why = fmt.Sprintf("the length check at %s compares with %d, above the reader's limit %d", g.pos, g.c, limit)
+			continue
+		}
+		all := true
+		for _, r := range c.nonFailingReturns(g.fn) {
+			if !mustPassEdges(g.fn, r.Block(), g.pass) {
+				all = false
+			}
+		}
+		if !all {
+			why = fmt.Sprintf("the length check at %s can be bypassed on the way to a non-failing return", g.pos)
+			continue
+		}
+		covers := g.fn == ne
+		if !covers {
+			// a marshalling helper: every commit function that marshals an Event goes through it
+			covers = true
+			n := 0
+			for cf := range c.commitFuncs() {
+				marshals := false
+				for _, call := range callsNamed(cf, "encoding/json.Marshal") {
+					if len(call.Common().Args) == 1 && strings.Contains(call.Common().Args[0].Type().String(), "ergo.Event") {
+						marshals = true
+					}
+					if mi, ok := call.Common().Args[0].(*ssa.MakeInterface); ok && namedTypeName(mi.X.Type()) == "ergo.Event" {
+						marshals = true
+					}
+				}
+				if marshals && cf != g.fn {
+					covers = false
+				}
+				if len(callsTo(cf, g.fn)) > 0 {
+					n++
+				}
+			}
+			covers = covers && n > 0
+		}
+		if covers {
+			good = fmt.Sprintf("%s refuses an event whose line would exceed %d bytes (reader limit %d) before anything is written", c.Name(g.fn), g.c, limit)
+		} else {
+			why = fmt.Sprintf("the length check in %s is not on the path of every writer of the log", c.Name(g.fn))
+		}
+	}
+	where, pos := "<module>", "-"
+	if ne != nil {
+		where, pos = c.Name(ne), c.FnPos(ne)
+	}
+	c.check(good != "", where, "line-limit-honoured", pos, good, why+": a command can record an event (a large body, or a smaller one of characters JSON escapes to six bytes each) that every later command, compact included, fails to read")
+}
+
+// ------------------------------------------------------------------ OU23
+
+func init() {
+	register(&Rule{ID: "OU23", Min: 1, Run: ruleOU23,
+		Doc: "rows-are-one-line: titles, claimant names and blocker names are accepted with line breaks, tabs and escape characters in them, and one item is one row of the human list. In the row formatters (formatTreeLine, formatCollapsedEpicLine) every string parameter that a call site can fill with user text (a value deriving from Task.Title, ClaimedBy or Body) is used only through the one-line sanitiser - a function that maps control characters away with strings.Map over unicode.IsControl - so no raw user text reaches the row"})
+}
+
+func ruleOU23(c *Ctx) {
+	// the sanitiser: a module function whose strings.Map mapping function asks unicode.IsControl
+	var sanitisers []*ssa.Function
+	for _, f := range c.Fns {
+		if !c.InModule(f) || f.Blocks == nil || f.Parent() != nil {
+			continue
+		}
+		for _, call := range callsNamed(f, "strings.Map") {
+			for _, mf := range funcValuesOf(call.Common().Args[0], 0) {
+				if mf.Blocks != nil && len(callsNamed(mf, "unicode.IsControl")) > 0 {
+					sanitisers = append(sanitisers, f)
+				}
+			}
+		}
+	}
+	isSan := func(cal *ssa.Function) bool {
+		for _, s := range sanitisers {
+			if s == cal {
+				return true
+			}
+		}
+		return false
+	}
+	n := 0
+	for _, name := range []string{"formatTreeLine", "formatCollapsedEpicLine"} {
+		f := c.ErgoFn(name)
+		if f == nil || f.Blocks == nil {
+			continue
+		}
+		for i, prm := range f.Params {
+			isStr := prm.Type().Underlying().String() == "string"
+			if !isStr {
+				continue
+			}
+			userText := false
+			for _, a := range c.argValues(f, i) {
+				if derivesFromField(a, "Title", "ClaimedBy", "Body") {
+					userText = true
+				}
+			}
+			if !userText {
+				continue
+			}
+			n++
+			raw := ""
+			if refs := prm.Referrers(); refs != nil {
+				for _, r := range *refs {
+					switch x := r.(type) {
+					case *ssa.DebugRef:
+					case ssa.CallInstruction:
+						if !isSan(calleeOf(x.Common())) {
+							raw = calleeFullName(x.Common()) + " at " + c.Pos(x.Pos())
+						}
+					default:
+						raw = fmt.Sprintf("%T at %s", r, c.Pos(r.Pos()))
+					}
+				}
+			}
+			c.check(raw == "" && len(sanitisers) > 0, c.Name(f), "param "+prm.Name()+" one-line", c.FnPos(f),
+				"user text handed to the row formatter is used only through the one-line sanitiser",
+				"the row formatter uses this user-supplied text raw ("+raw+"): a title or claimant name with a line break takes two rows - the second without glyph or id - and control characters, counted as zero cells, move the id out of its column")
+		}
+	}
+	if n == 0 {
+		c.unk("<module>", "row-formatters", "-", "no row formatter parameter filled with user text was found (formatTreeLine / formatCollapsedEpicLine not recognised)")
 	}
 }
